@@ -110,7 +110,52 @@ fn str_map(v: Option<&Value>) -> Vec<(String, String)> {
 	out
 }
 
+/// writer description -> the library's ManifestFormat (C15: the CLI's choice is predicted by the
+/// model and reproduced here through the public constructors)
+fn writer(spec: &str) -> Option<Box<dyn ManifestFormat>> {
+	use jrsonnet_evaluator::manifest::YamlStreamFormat;
+	use jrsonnet_stdlib::{IniFormat, TomlFormat, XmlJsonmlFormat, YamlFormat};
+	if let Some(inner) = spec.strip_prefix("ystream(").and_then(|s| s.strip_suffix(')')) {
+		return Some(Box::new(YamlStreamFormat::cli(writer(inner)?)));
+	}
+	let (name, n) = match spec.split_once(':') {
+		Some((a, b)) => (a, b.parse::<usize>().ok()?),
+		None => (spec, 0),
+	};
+	Some(match name {
+		"json" => Box::new(JsonFormat::cli(n)),
+		"yaml" => Box::new(YamlFormat::cli(n)),
+		"toml" => Box::new(TomlFormat::cli(n)),
+		"xml" => Box::new(XmlJsonmlFormat::cli()),
+		"ini" => Box::new(IniFormat::cli()),
+		"string" => Box::new(StringFormat),
+		"tostring" => Box::new(ToStringFormat),
+		_ => return None,
+	})
+}
+
 fn manifest_out(val: &Val, out: &str) -> Result<Value> {
+	if let Some(w) = out.strip_prefix("writer=") {
+		let Some(f) = writer(w) else {
+			return Ok(Value::String(format!("unknown writer {w}")));
+		};
+		return Ok(Value::String(f.manifest(val.clone())?));
+	}
+	if let Some(w) = out.strip_prefix("multi=") {
+		// -m: one manifest per field, in field order
+		let Some(f) = writer(w) else {
+			return Ok(Value::String(format!("unknown writer {w}")));
+		};
+		let Val::Obj(obj) = val else {
+			return Ok(json!({"notobj": val.value_type().name()}));
+		};
+		let mut files = Vec::new();
+		for k in obj.fields() {
+			let v = obj.get(k.clone())?.expect("field exists");
+			files.push(json!([k.to_string(), f.manifest(v)?, f.file_trailing_newline()]));
+		}
+		return Ok(Value::Array(files));
+	}
 	Ok(match out {
 		"canon" => canon(val)?,
 		"none" => Value::Null,
